@@ -19,7 +19,8 @@ NOBS = 5
 
 
 def gen(rng, tier):
-    return c09.gen(rng, tier)
+    # the definitions the writer declares unsupported (refused with a ValueError, see C09) have no serialisation to observe
+    return [c for c in c09.gen(rng, tier) if c09.writer_supports(c["doc"])]
 
 
 def impl(case):
